@@ -901,8 +901,10 @@ func c15MathCheck(fn string, a []float64, got []c15Val, err error) c15MathVerdic
 				m = x
 			}
 		}
-		v.exp = c15Num(m) + " (numerically)"
-		v.ok = g == m
+		// the definition is lmathlib's left-to-right scan with < / >: a NaN that is not the first
+		// argument never wins, the first of two equal values (e.g. +0 before -0) is kept
+		v.exp = c15Num(m)
+		v.ok = (g != g && m != m) || (g == m && math.Signbit(g) == math.Signbit(m))
 		if !v.ok {
 			v.class = "wrong-value"
 		}
@@ -1030,7 +1032,7 @@ func (x *c15Ctx) runMath() {
 		}
 	}
 	// max / min over all 1..4-tuples (5 in the thorough tier): every position wins
-	mm := []float64{-3, -0.5, 0, 1, 2.5, 1e300, math.Inf(-1)}
+	mm := []float64{-3, -0.5, 0, 1, 2.5, 1e300, math.Inf(-1), math.NaN(), math.Copysign(0, -1)}
 	maxArity := 4
 	if r.Thorough() {
 		maxArity = 5
